@@ -49,19 +49,38 @@ def _p(x):
     return x
 
 
+class _TState:
+    __slots__ = ('log', 'internal')
+
+    def __init__(self):
+        self.log = []
+        self.internal = 0
+
+
 class Tap:
-    """Records [op, path, internal, result] for the enabled thread."""
+    """Records [op, path, internal, result] per registered thread (others pass through untouched)."""
 
     def __init__(self):
         self.enabled = False
-        self.thread = None
-        self.internal = 0
-        self.log = []
+        self.states = {}          # thread ident -> _TState
         self._hooked = False
+        self._depth = 0
+
+    def state(self):
+        return self.states.get(threading.get_ident()) if self.enabled else None
+
+    @property
+    def log(self):
+        """Log of the calling thread (the last one it recorded, also after the tap was closed)."""
+        st = self.states.get(threading.get_ident())
+        return st.log if st is not None else []
 
     # -- audit hook (cannot be removed once added: gated by `enabled`) --------------------------
     def _audit(self, event, args):
-        if not self.enabled or threading.get_ident() != self.thread:
+        if not self.enabled:
+            return
+        st = self.states.get(threading.get_ident())
+        if st is None:
             return
         if event == 'open':
             path = _p(args[0])
@@ -72,7 +91,7 @@ class Tap:
                 w = any(c in mode for c in 'wax+')
             else:
                 w = bool((flags or 0) & W_FLAGS)
-            self.log.append(['openw' if w else 'openr', path, self.internal > 0, None])
+            st.log.append(['openw' if w else 'openr', path, st.internal > 0, None])
             return
         op = AUDIT_OPS.get(event)
         if op is None:
@@ -81,20 +100,21 @@ class Tap:
         for a in args[:n]:
             path = _p(a)
             if path is not None:
-                self.log.append([op, path, self.internal > 0, None])
+                st.log.append([op, path, st.internal > 0, None])
 
     def _wrap(self, name):
         real = _real[name]
         tap = self
 
         def wrapper(path, *a, **k):
-            if not tap.enabled or threading.get_ident() != tap.thread:
+            st = tap.states.get(threading.get_ident()) if tap.enabled else None
+            if st is None:
                 return real(path, *a, **k)
             sp = _p(path)
             if sp is None:
                 return real(path, *a, **k)
-            entry = ['stat', sp, tap.internal > 0, 'm']
-            tap.log.append(entry)
+            entry = ['stat', sp, st.internal > 0, 'm']
+            st.log.append(entry)
             r = real(path, *a, **k)
             if name in ('stat', 'lstat'):
                 import stat as _st
@@ -105,26 +125,71 @@ class Tap:
         wrapper.__name__ = name
         return wrapper
 
-    def __enter__(self):
+    def open(self):
+        """Patch the os functions and start recording (threads join with `register`)."""
         if not self._hooked:
             sys.addaudithook(self._audit)
             self._hooked = True
-        self.log = []
-        self.internal = 0
-        self.thread = threading.get_ident()
+        self.states = {}
         for n in ('stat', 'lstat', 'access', 'readlink'):
             setattr(os, n, self._wrap(n))
         self.enabled = True
-        return self
 
-    def __exit__(self, *exc):
+    def register(self):
+        st = _TState()
+        self.states[threading.get_ident()] = st
+        return st
+
+    def close(self):
         self.enabled = False
         for n in ('stat', 'lstat', 'access', 'readlink'):
             setattr(os, n, _real[n])
+
+    def __enter__(self):
+        self.open()
+        self.register()
+        return self
+
+    def __exit__(self, *exc):
+        self.close()
         return False
 
 
 TAP = Tap()
+HERE = os.path.dirname(os.path.abspath(__file__))
+
+
+def origin(exc):
+    """'code' when the exception comes out of the code under test (the innermost frame that is either
+    harness or cherrypy is a cherrypy one - library frames called from there count with it),
+    'harness' when our own code raised it."""
+    import traceback
+    try:
+        import cherrypy
+        pkg = os.path.dirname(os.path.abspath(cherrypy.__file__))
+    except Exception:
+        return 'code'           # the package itself does not import
+    for fr in reversed(traceback.extract_tb(exc.__traceback__)):
+        fn = os.path.abspath(fr.filename)
+        if fn.startswith(pkg + os.sep):
+            return 'code'
+        if fn.startswith(HERE + os.sep):
+            return 'harness'
+    return 'harness'
+
+
+def describe(exc):
+    import traceback
+    name = type(exc).__name__
+    st = getattr(exc, 'status', None)
+    if st is not None:
+        name += str(st)
+    where = ''
+    for fr in reversed(traceback.extract_tb(exc.__traceback__)):
+        if '/cherrypy/' in fr.filename:
+            where = ' in %s:%s' % (os.path.basename(fr.filename), fr.name)
+            break
+    return 'raised:%s%s' % (name, where)
 
 
 def make_lock_shim(real_cls):
@@ -137,20 +202,25 @@ def make_lock_shim(real_cls):
             self._l = real_cls(path, *a, **k)
 
         def acquire(self, *a, **k):
-            if TAP.enabled:
-                TAP.log.append(['lock', _p(self.path), False, None])
-            TAP.internal += 1
+            st = TAP.state()
+            if st is None:
+                return self._l.acquire(*a, **k)
+            st.log.append(['lock', _p(self.path), False, None])
+            st.internal += 1
             try:
                 return self._l.acquire(*a, **k)
             finally:
-                TAP.internal -= 1
+                st.internal -= 1
 
         def release(self, *a, **k):
-            TAP.internal += 1
+            st = TAP.state()
+            if st is None:
+                return self._l.release(*a, **k)
+            st.internal += 1
             try:
                 return self._l.release(*a, **k)
             finally:
-                TAP.internal -= 1
+                st.internal -= 1
 
         def __getattr__(self, n):
             return getattr(self._l, n)
@@ -207,6 +277,7 @@ def tree_spec():
     d('sess/session-')
     f('sess/session-/inner', _pickle())
     d('sess/session-a')
+    d('sess2/session-b')
     return t
 
 
@@ -228,6 +299,18 @@ class Sandboxes:
     def __init__(self):
         self.top = None
 
+    @property
+    def cur(self):
+        """Per-thread scratch the probes (hooks, generate_id) write into."""
+        d = getattr(self._tl, 'cur', None)
+        if d is None:
+            d = self._tl.cur = {}
+        return d
+
+    @cur.setter
+    def cur(self, v):
+        self._tl.cur = v
+
     def __enter__(self):
         import cherrypy
         from cherrypy.lib import sessions, static
@@ -241,6 +324,7 @@ class Sandboxes:
             self._create(rel)
         self.content = {v: k for k, v in self.spec.items() if v is not None and v.startswith(b'C11:')}
         self.cwd = os.getcwd()
+        self._tl = threading.local()
         self.cur = {}
         self.gen_counter = 0
         self._saved_lock = sessions.FileLock
@@ -425,8 +509,13 @@ class Sandboxes:
 
         class ProbeFileSession(self.sessions.FileSession):
             def generate_id(self):
-                sb.gen_counter += 1
-                v = hashlib.sha1(b'c11-%d' % sb.gen_counter).hexdigest()
+                label = sb.cur.get('label')
+                if label is None:
+                    sb.gen_counter += 1
+                    v = hashlib.sha1(b'c11-%d' % sb.gen_counter).hexdigest()
+                else:       # concurrent scenarios: ids depend on the request, not on the schedule
+                    sb.cur['gen_n'] = sb.cur.get('gen_n', 0) + 1
+                    v = hashlib.sha1(('c11-%s-%d' % (label, sb.cur['gen_n'])).encode()).hexdigest()
                 sb.cur.setdefault('gens', []).append(v)
                 return v
         self.session_class = ProbeFileSession
@@ -560,6 +649,70 @@ class Sandboxes:
         self.apps[key] = app
         return app
 
+    # -- two-thread scenarios (harness/c11_conc.py) ----------------------------------------------
+    def conc_static(self, case):
+        cherrypy = self.cherrypy
+        dirs = case['dirs']
+        key = ('conc-static',) + tuple(dirs)
+        full = [self.top if d == '.' else self.top + '/' + d for d in dirs]
+        if key not in self.apps:
+            class Root:
+                pass
+            conf = {'/': {}}
+            for name, d in zip('abc', full):
+                conf['/' + name] = {'tools.staticdir.on': True, 'tools.staticdir.dir': d,
+                                    'tools.staticdir.index': 'index.html'}
+            self.apps[key] = cherrypy.Application(Root(), '', conf)
+        reqs, roots = [], []
+        for i, r in enumerate(case['reqs']):
+            sec = r.get('sec', 'abc'[i])
+            path = '/' + sec + '/' + self.sub(r['path'])
+            reqs.append({'label': 'r%d' % i, 'path': path, 'show': path.replace(self.top, '{TOP}')})
+            roots.append(full['abc'.index(sec)])
+        return self.apps[key], roots, reqs
+
+    def conc_session(self, case):
+        cherrypy = self.cherrypy
+        key = ('conc-session',)
+        stores = {'sa': 'sess', 'sb': 'sess2'}
+        if key not in self.apps:
+            def action(act):
+                sess = cherrypy.session
+                if act == 'read':
+                    return repr(sess.get('k'))
+                if act == 'write':
+                    sess['n'] = 1
+                    return 'w'
+                if act == 'delete':
+                    sess.delete()
+                    return 'd'
+                if act == 'regenerate':
+                    sess.regenerate()
+                    return 'g'
+                return 'n'
+
+            class Node:
+                @cherrypy.expose
+                def s(self, act='none'):
+                    return action(act)
+
+            class Root:
+                sa = Node()
+                sb = Node()
+            conf = {'/': {}}
+            for sec, store in stores.items():
+                conf['/' + sec] = {'tools.sessions.on': True, 'tools.sessions.storage_class': self.session_class,
+                                   'tools.sessions.storage_path': self.top + '/' + store,
+                                   'tools.sessions.clean_freq': 0, 'tools.sessions.lock_timeout': 2}
+            self.apps[key] = cherrypy.Application(Root(), '', conf)
+        reqs, roots = [], []
+        for i, r in enumerate(case['reqs']):
+            cookie = None if r.get('id') is None else self.cookie_header(self.sub(r['id']), r.get('cstyle', 'auto'))
+            reqs.append({'label': 'r%d' % i, 'path': '/%s/s' % r['sec'], 'qs': 'act=' + r['action'],
+                         'cookie': cookie, 'show': '/%s/s?act=%s Cookie: %s' % (r['sec'], r['action'], cookie)})
+            roots.append(self.top + '/' + stores[r['sec']])
+        return self.apps[key], roots, reqs
+
     def call(self, app, method, script, path, qs='', cookie=None):
         if any(ord(c) > 255 for c in path):
             path = path.encode('utf-8').decode('latin-1')
@@ -577,12 +730,19 @@ class Sandboxes:
         def start_response(status, headers, exc_info=None):
             out['status'] = status
             out['headers'] = headers
-        it = app(env, start_response)
         try:
-            body = b''.join(it)
-        finally:
-            if hasattr(it, 'close'):
-                it.close()
+            it = app(env, start_response)
+            try:
+                body = b''.join(it)
+            finally:
+                if hasattr(it, 'close'):
+                    it.close()
+        except Exception as e:
+            if origin(e) != 'code':
+                raise
+            return describe(e), b''
+        if 'status' not in out:
+            return 'raised:no-start_response', body
         return out['status'][:3], body
 
     # -- case runners ----------------------------------------------------------------------------
@@ -604,12 +764,38 @@ class Sandboxes:
                 return self.run_alg(case)
             if k == 'resolve':
                 return self.run_resolve(case)
+            if k == 'conc':
+                from . import c11_conc
+                return c11_conc.run_conc(self, case)
             return {'harness_error': 'unknown case kind %r' % k}
         except common.HarnessError as e:
             return {'harness_error': str(e)}
-        except Exception as e:   # the runner itself failed
+        except Exception as e:
+            if origin(e) == 'code':
+                # the code under test raised somewhere the runner does not expect it (construction,
+                # setup, clean-up...): an observation, never a harness error
+                return self.code_raised(case, e)
             import traceback
             return {'harness_error': 'runner raised %r: %s' % (e, traceback.format_exc()[-1200:])}
+
+    def case_root(self, case):
+        if case.get('k') == 'static':
+            return self.top + '/' + case['rn']
+        if 'store' in case:
+            return self.top + '/' + case['store']
+        return None
+
+    def code_raised(self, case, exc):
+        TAP.close()
+        log = list(TAP.log)
+        try:
+            changed = self.restore()
+        except Exception:
+            changed = []
+        root = self.case_root(case)
+        bad = self.judge(root, log, changed) if root else []
+        return {'code_raised': describe(exc), 'oracle': bad, 'acc': self.canon_acc(log),
+                'hist': ['%s:code-raised' % case.get('k')]}
 
     @staticmethod
     def canon_acc(log):
@@ -661,18 +847,30 @@ class Sandboxes:
             h.append('static:not-routed')
         return obs
 
-    def cookie_header(self, value):
+    def cookie_header(self, value, style='auto'):
+        """`Cookie:` header carrying `value` as session_id.  Styles: auto (raw when every character is a
+        legal cookie octet, quoted otherwise), octal (quoted, every non-alphanumeric as \\ooo - http.cookies
+        turns \\057 back into '/'), bslash (quoted, backslash-escaped characters), mixed (alternating)."""
         legal = set("abcdefghijklmnopqrstuvwxyzABCDEFGHIJKLMNOPQRSTUVWXYZ0123456789!#%&'~_`><@,:/$*+-.^|)(?}{=")
-        if value and all(c in legal for c in value):
+        if style == 'auto' and value and all(c in legal for c in value):
             return 'session_id=' + value
         out = []
-        for c in value:
-            if c in legal or c == ' ':
+        for i, c in enumerate(value):
+            if ord(c) > 255:
+                out.append(c.encode('utf-8').decode('latin-1'))
+                continue
+            plain_ok = c.isalnum() and ord(c) < 128
+            if style == 'auto':
+                if c in legal or c == ' ':
+                    out.append(c)
+                else:
+                    out.append('\\%03o' % ord(c))
+            elif plain_ok:
                 out.append(c)
-            elif ord(c) < 256:
+            elif style == 'octal' or (style == 'mixed' and i % 2 == 0) or not (32 < ord(c) < 127):
                 out.append('\\%03o' % ord(c))
             else:
-                out.append(c.encode('utf-8').decode('latin-1'))
+                out.append('\\' + c)
         return 'session_id="%s"' % ''.join(out)
 
     def store_root(self, case):
@@ -683,7 +881,7 @@ class Sandboxes:
         self.cur = {}
         app = self.session_app(case['store'], case['spelling'])
         d, _ = self.dir_spelling(case['store'], case['spelling'])
-        cookie = None if case.get('id') is None else self.cookie_header(self.sub(case['id']))
+        cookie = None if case.get('id') is None else self.cookie_header(self.sub(case['id']), case.get('cstyle', 'auto'))
         with TAP:
             status, body = self.call(app, 'GET', '', '/s', 'act=' + case['action'], cookie)
         log = TAP.log
@@ -695,7 +893,7 @@ class Sandboxes:
         stats = [res for op, path, internal, res in log
                  if op == 'stat' and not internal and not any(g in path for g in gens)]
         obs['present'] = bool(stats) and stats[0] != 'm' and self.cur.get('cookie_seen') is not None
-        obs['oracle'] = self.judge(root, log, changed)
+        obs['oracle'] = [(w + ' [Cookie: %s]' % cookie, sig) for w, sig in self.judge(root, log, changed)]
         h = obs.setdefault('hist', [])
         h += ['sess_wsgi:status=%s' % status, 'sess_wsgi:tmpl=%s' % case.get('tmpl'),
               'sess_wsgi:action=%s' % case['action'], 'sess_wsgi:present=%s' % obs['present']]
